@@ -1,3 +1,5 @@
+import RSV.Props.C17funcs
+import RSV.Props.C17matrix
 import RSV.Props.C17
 import RSV.Props.C17leo
 import RSV.Props.C17gf16
